@@ -216,20 +216,29 @@ func (r *Region) Origins(v RV) []RV {
 			}
 			if ia, ok := x.X.(*ssa.IndexAddr); ok && isInduction(ia.Index) {
 				// element, selected by a loop index, of a literal (or of a variadic parameter: the arguments of the call)
-				handled := false
+				handled, opaque := false, false
 				for _, bo := range r.Origins(RV{V: ia.X, C: c}) {
+					lit := false
 					if sl, ok := bo.V.(*ssa.Slice); ok {
 						if al, ok := sl.X.(*ssa.Alloc); ok && sl.Low == nil && sl.High == nil {
 							if elems := arrayLiteralElems(al); len(elems) > 0 {
 								for _, e := range elems {
 									walk(e, bo.C, via, d+1)
 								}
-								handled = true
+								handled, lit = true, true
 							}
 						}
 					}
+					if !lit {
+						opaque = true
+					}
 				}
 				if handled {
+					if opaque {
+						// some alternative of the list is not a literal (an append onto it, a computed slice): the element
+						// read from it stays an origin of its own
+						out = append(out, RV{V: v, C: c, Via: via})
+					}
 					return
 				}
 			}
